@@ -190,3 +190,5 @@ def run(ctx):
     c15.rule_zero_fill(ctx, P)
     ctx.borrow('c01', ['R01d'], 'kernel bytes left unprocessed change the parity bytes of every stripe')
     ctx.borrow('c08', ['R08a'], 'a caller-supplied word size must not change the fragment geometry')
+    ctx.borrow('c10', ['R10a'], 'payload checksum bytes are part of the wire format')
+    ctx.borrow('c15', ['R15d'], 'header bytes must not depend on process history (no static caches in the operation cones)')
